@@ -15,7 +15,7 @@
 (* unchanged by every step; every step is also printed as a test case      *)
 (* (a, b, transformation) and both texts go through the real parsers.      *)
 (***************************************************************************)
-EXTENDS Locale, Ascii, TLC, Json
+EXTENDS Locale, Ascii, TLC, Json, IOUtils
 
 CONSTANTS MaxSteps, SeedSet
 
@@ -80,7 +80,11 @@ SeedsE == { Seed("en-u-t-es"), Seed("en-t-u-foo"), Seed("en-t-es-u"), Seed("en-u
             Seed("en-US-"), Seed("en-"), Seed("-en"), Seed("en-US--valencia"), Seed("ca-ES-valencia-"),
             Seed("en-u-ca-"), Seed("en-t-h0-"), Seed("en-x-"), Seed("en-u-t"), Seed("en-t-u"),
             Seed("en-u-ca-t-h0"), Seed("en-valencia--valencia") }
-Seeds == IF SeedSet = "A" THEN SeedsA ELSE IF SeedSet = "B" THEN SeedsB ELSE IF SeedSet = "E" THEN SeedsE
+(* whole multi-subtag literals of the library's sources (VERIF_DICT_TAGS): a table of special tags matched as a whole  *)
+(* must treat every spelling of a tag alike                                                                             *)
+TagsRaw == JsonDeserialize(IOEnv.VERIF_DICT_TAGS)
+SeedsT == { LET ts == Split(TagsRaw[q]) IN [toks |-> ts, seps |-> [i \in 1..(Len(ts) - 1) |-> 45]] : q \in 1..Len(TagsRaw) }
+Seeds == IF SeedSet = "T" THEN SeedsT ELSE IF SeedSet = "A" THEN SeedsA ELSE IF SeedSet = "B" THEN SeedsB ELSE IF SeedSet = "E" THEN SeedsE
          ELSE IF SeedSet = "C" THEN SeedsC ELSE IF SeedSet = "D" THEN SeedsD ELSE SeedsA \cup SeedsB
 
 Init == \E sd \in Seeds : toks = sd.toks /\ seps = sd.seps /\ n = 0
